@@ -294,14 +294,17 @@ let handle (x : sexp) : (string * string) list =
                  | _ -> add "error" ("run without calls" ^ ctx))
               | Some calls ->
                 let cs = List.map (function
-                    | L [A "call"; A kind; L path; plan; A id; L idx; A nreps; _meth] ->
+                    | L [A "call"; A kind; L path; plan; A id; L idx; A nreps; _meth; ents] ->
                       { c_kind = (match kind with "std" -> CStd | "entity" -> CEntity | "resolve" -> CResolve | "required" -> CRequired
                                                 | k -> raise (Sexp_error ("call kind " ^ k)));
                         c_path = List.map (fun p -> b (str p)) path;
                         c_plan = pmessage_of plan;
                         c_resp = Lazy.force (Hashtbl.find resp_tbl (int_of_string id));
                         c_idx = List.map (fun i -> nat_of_int (int_of_string (atom i))) idx;
-                        c_nreps = nat_of_int (int_of_string nreps) }
+                        c_nreps = nat_of_int (int_of_string nreps);
+                        c_ents = (match ents with
+                            | L (A "ents" :: pos) -> Some (List.map (fun i -> nat_of_int (int_of_string (atom i))) pos)
+                            | _ -> None) }
                     | y -> raise (Sexp_error ("call: " ^ clip 200 (print_sexp y)))) calls in
                 (match load em cs, errs with
                  | Ok mj, None ->
